@@ -1,4 +1,4 @@
-// C13 R13.25 / R13.17 an aggregate without members as a parameter / an argument.  has_flonum() is vacuously true for it, so it is
+// C13 R13.25 / R13.17 an aggregate without members as a parameter / an argument (fixed in /repo by 6a226fc; kept as the input R13.25 was confirmed with).  has_flonum() is vacuously true for it, so it is
 // classified like a small floating-point aggregate.  GNU C (empty struct), accepted by gcc and by chibicc's parser.
 // Expected (gcc -c): compiles.
 //   default:  callee side: the prologue calls store_fp(fp++, offset, MIN(8, 0)) -> "internal error at codegen.c:<line of unreachable() in store_fp>", exit 1
